@@ -62,6 +62,16 @@ func (vc *VC) libCall(fr *frame, n *Node, x *ssa.Call, callee *ssa.Function, arg
 		trust(full + " = IEEE-754 operation")
 		vc.defVal(n, x, fmt.Sprintf(op, args[0].T))
 		return true
+	case "math.Exp", "math.Log", "math.Log2", "math.Pow", "math.Log10":
+		trust(full + ": uninterpreted function (only the structure of formulas using it is checked)")
+		name := "spec.f" + strings.ToLower(strings.TrimPrefix(full, "math."))
+		var sorts, ts []string
+		for _, a := range args {
+			sorts = append(sorts, e.sortOf(a.Typ))
+			ts = append(ts, a.T)
+		}
+		vc.defVal(n, x, e.uf(name, sorts, fp64, ts...))
+		return true
 	case "math.Max", "math.Min":
 		// Go: NaN if either is NaN; +Inf/-Inf rules; signed zeros
 		trust(full + " per Go documentation (NaN propagation, signed zeros)")
